@@ -102,9 +102,19 @@ const (
 )
 
 type h struct {
-	k kind
-	s sets.Set[int]
-	m mask
+	k       kind
+	s       sets.Set[int]
+	m       mask
+	touched bool // an operation has been applied: the constructors are offered in the initial state only
+}
+
+// sliceOf decodes a slice over {0,1,2} of length 1..3 (digits 1..3 base 4, duplicates included).
+func sliceOf(code int) []int {
+	var l []int
+	for ; code > 0; code /= 4 {
+		l = append(l, code%4-1)
+	}
+	return l
 }
 
 func newSet(k kind) sets.Set[int] {
@@ -116,6 +126,22 @@ func newSet(k kind) sets.Set[int] {
 
 func (x *h) Ops() []seqmc.Op {
 	var ops []seqmc.Op
+	if !x.touched {
+		// every constructor's result is a start state of the search, not only the empty set
+		for a := 1; a <= 3; a++ {
+			ops = append(ops, seqmc.Op{Name: "NewSetFromSlice", A: a})
+			for b := 1; b <= 3; b++ {
+				ops = append(ops, seqmc.Op{Name: "NewSetFromSlice", A: a + 4*b})
+				for c := 1; c <= 3; c++ {
+					ops = append(ops, seqmc.Op{Name: "NewSetFromSlice", A: a + 4*b + 16*c})
+				}
+			}
+		}
+		for m := 1; m < 1<<U; m++ {
+			ops = append(ops, seqmc.Op{Name: "NewSetFromKeys", A: m}, seqmc.Op{Name: "NewSetFromValues", A: m})
+		}
+	}
+	ops = append(ops, seqmc.Op{Name: "Clone"})
 	for v := 0; v < U; v++ {
 		ops = append(ops, seqmc.Op{Name: "Add", A: v}, seqmc.Op{Name: "Remove", A: v})
 	}
@@ -130,7 +156,43 @@ func (x *h) Ops() []seqmc.Op {
 }
 
 func (x *h) Apply(op seqmc.Op) *seqmc.Fail {
+	x.touched = true
 	switch op.Name {
+	case "NewSetFromSlice":
+		in := sliceOf(op.A)
+		x.m = 0
+		for _, v := range in {
+			x.m |= 1 << uint(v)
+		}
+		if x.k == kMaps {
+			x.s = maps.NewSetFromSlice(in)
+		} else {
+			x.s = sync2.NewSetFromSlice(in)
+		}
+	case "NewSetFromKeys", "NewSetFromValues":
+		mp := map[int]int{}
+		for v := 0; v < U; v++ {
+			if mask(op.A).has(v) {
+				if op.Name == "NewSetFromKeys" {
+					mp[v] = 7
+				} else {
+					mp[10+v] = v // one key per value: with duplicates the iteration order of the input map would decide the layout
+				}
+			}
+		}
+		x.m = mask(op.A)
+		switch {
+		case x.k == kMaps && op.Name == "NewSetFromKeys":
+			x.s = maps.NewSetFromKeys(mp)
+		case x.k == kMaps:
+			x.s = maps.NewSetFromValues(mp)
+		case op.Name == "NewSetFromKeys":
+			x.s = sync2.NewSetFromKeys(mp)
+		default:
+			x.s = sync2.NewSetFromValues(mp)
+		}
+	case "Clone":
+		x.s = x.s.Clone() // the search continues on the clone (its layout is its own)
 	case "Add":
 		got, want := x.s.Add(op.A), !x.m.has(op.A)
 		x.m |= 1 << uint(op.A)
@@ -481,7 +543,7 @@ func main() {
 	r.Set("traces_validated_against_impl", int64(trans)+e.Calls)
 	r.Set("construction_states", states)
 	r.Set("operand_pairs", e.Inputs)
-	r.Set("rule", "(1) explicit-state BFS to fixpoint over the construction histories Add/Remove/Has(incl. misses)/Len of sync2.Set and maps.Set on {0,1,2}: state = fingerprint of the complete concrete layout (read map, dirty map, amended flag, miss counter, nil/expunged/live entries), every observer compared with a membership model in every state, Clone independence both ways; (2) every ordered pair of operand layouts (quick: one representative per membership x history class; thorough: all layouts) in all four implementation pairings plus the same object as both operands, through Union/Intersect/SetDiff/SymDiff/AddSet/RemoveSet/CartesianProduct with operand-unchanged and detachment checks; (3) NewSetFrom* on all slices of length <= 4 and all maps PLUS deterministic families beyond the exhaustive bound (large sizes, every single/double removal from trees built in 7 orders, long one-instance churn histories): see the *_family_* counters")
+	r.Set("rule", "(1) explicit-state BFS to fixpoint over the construction histories Add/Remove/Has(incl. misses)/Len/Clone of sync2.Set and maps.Set on {0,1,2}, started from the empty set and from the result of every NewSetFromSlice/NewSetFromKeys/NewSetFromValues call over that universe: state = fingerprint of the complete concrete layout (read map, dirty map, amended flag, miss counter, nil/expunged/live entries), every observer compared with a membership model in every state, Clone independence both ways; (2) every ordered pair of operand layouts (quick: one representative per membership x history class; thorough: all layouts) in all four implementation pairings plus the same object as both operands, through Union/Intersect/SetDiff/SymDiff/AddSet/RemoveSet/CartesianProduct with operand-unchanged and detachment checks; (3) NewSetFrom* on all slices of length <= 4 and all maps PLUS deterministic families beyond the exhaustive bound (large sizes, every single/double removal from trees built in 7 orders, long one-instance churn histories): see the *_family_* counters")
 	r.Finish()
 }
 
